@@ -47,14 +47,6 @@ pub fn pcfg(cx: &Cx) -> (PCfg, Vec<&'static str>) {
         c.state_in_branches = false;
         off.push(KF_IF_STATE);
     }
-    if cx.excluded(KF_MULTI_DELAY) {
-        c.multi_delay_per_fn = false;
-        off.push(KF_MULTI_DELAY);
-    }
-    if cx.excluded(KF_NAN_COND) {
-        c.raw_conditions = false;
-        off.push(KF_NAN_COND);
-    }
     if cx.excluded(KF_TUPLE_INPUT) {
         c.tuple_inputs = false;
         off.push(KF_TUPLE_INPUT);
@@ -99,10 +91,6 @@ pub fn pcfg(cx: &Cx) -> (PCfg, Vec<&'static str>) {
         c.pack_dots = false;
         off.push(KF_DEFAULT_ARGS);
         off.push(KF_VM_DOTS);
-    }
-    if cx.excluded(KF_ARRAY_INF) {
-        c.array_index_inf = false;
-        off.push(KF_ARRAY_INF);
     }
     if cx.excluded(KF_UNRESOLVED_SELF) {
         c.unannotated_self = false;
